@@ -279,6 +279,60 @@ def classes_and_prosody(chk, cc):
                       {'kind': 'classes-model', 'detail': str(bad[0]), 'broken': 'correspondence:prosodic/token2class'}, found_input=False)
 
 
+def models_by_name_across_schemas(chk, cc):
+    """A model may be named instead of passed (`tokens2class(tokens, 'sca')`); the name means whatever `rc(name)` is bound to at the time
+    of the call, and `rc(schema=...)` rebinds the names.  Along a session that switches the schema back and forth, the classes of a call
+    by name are the classes of the model the name is bound to at that moment - from its alphabet, one per token."""
+    from lingpy import rc
+    from lingpy.settings import rcParams
+    from lingpy.sequence.sound_classes import ipa2tokens, tokens2class, token2class
+    rng = chk.rng
+    samples = [['m', 'a', '⁵⁵'], ['t', 'a', '³¹', 'k', 'u', '²¹⁴'], ['h', 'a', 'n', 't'], ['N', 'a', '5'], ['t', 'o', 'X', 'E', 'r']]
+    for _ in range(chk.n(40, 400)):
+        w = gen_string(rng, cc, 6)
+        if [c for c in w if c not in cc['breaks']]:
+            try:
+                samples.append(ipa2tokens(w))
+            except Exception:  # noqa
+                pass
+    fails = []
+    n = 0
+    try:
+        for schema in ['ipa', 'asjp', 'ipa', 'evolaemp', 'ipa'][:chk.n(3, 5)]:
+            rc(schema=schema)
+            for name in ('sca', 'dolgo', 'asjp', 'art'):
+                M = rcParams[name]
+                alphabet = set(M.converter.values()) | {'0'}
+                for toks in samples:
+                    n += 1
+                    chk.evaluations += 1
+                    try:
+                        by_obj = tokens2class(list(toks), M)
+                    except ValueError:
+                        by_obj = 'ValueError'
+                    try:
+                        by_name = tokens2class(list(toks), name)
+                    except ValueError:
+                        by_name = 'ValueError'
+                    single = [token2class(t, name) for t in toks]
+                    if by_name != by_obj:
+                        fails.append('after rc(schema=%r): tokens2class(%r, %r) = %r, but the model the name is bound to now gives %r' % (schema, toks, name, by_name, by_obj))
+                    elif by_name != 'ValueError' and (len(by_name) != len(toks) or not set(by_name) <= alphabet):
+                        fails.append('after rc(schema=%r): tokens2class(%r, %r) = %r: not one class of the alphabet per token' % (schema, toks, name, by_name))
+                    elif not set(single) <= alphabet:
+                        fails.append('after rc(schema=%r): token2class over %r with the model named %r gives %r: %r is not in the alphabet of the model the name is bound to'
+                                     % (schema, toks, name, single, sorted(set(single) - alphabet)))
+    except Exception as ex:  # noqa
+        fails.append('a session that switches the schema raised %s: %s' % (type(ex).__name__, str(ex)[:100]))
+    finally:
+        rc(schema='ipa')
+    chk.hist['classes by model NAME across rc(schema=...) switches'] += n
+    chk.obligation('oracle:classes by model name follow the schema in force (sessions ipa -> asjp -> ipa ...)', 'correspondence', not fails,
+                   'calls=%d failures=%d' % (n, len(fails)))
+    for f in fails[:1]:
+        chk.violation(f, {'kind': 'classes-by-name', 'why': f})
+
+
 GEN_SC = os.path.join(common.LEAN, 'Verif', 'Generated', 'SoundClasses.lean')
 
 
@@ -350,6 +404,7 @@ def run(chk):
     cc = char_classes()
     tokeniser(chk, cc)
     classes_and_prosody(chk, cc)
+    models_by_name_across_schemas(chk, cc)
     # gap re-insertion (global and local mode) against the Lean class2tokens / class2tokensLocal (theorems C14_class2tokens(_local))
     from props import align_common as ac
     ac.class2tokens_checks(chk)
